@@ -19,7 +19,7 @@ TECHNIQUE = 'Lean 4 proof over a hand-written model + bit-exact correspondence c
 LEVEL_TEXT = ("Lean 4 theorems over every list of particle arrays and every ordered field "
               "(hmin_is_smallest_h, explicit_spec, formula, factors_are_maxima, never_exceeds_any_particle, "
               "fallback_when_none; and over every history of set_fixed_h/compute_time_step calls on changing arrays: "
-              "tracks_run, history_cts, history_cts_fresh, refix_refreshes; order independence hmin_multiset_only, hmin_array_order_independent, explicit_multiset_only, explicit_array_order_independent, factors_array_order_independent, compute_time_step_array_order_independent: the values depend only on the multiset of particle values, not on the split into arrays or any order; and for the min-reduction of parallel runs par_is_min_or_fixed, par_no_rank_constrained_keeps_fixed) about a hand-written model that transcribes "
+              "tracks_run, history_cts, history_cts_fresh, refix_refreshes; order independence hmin_multiset_only, hmin_array_order_independent, explicit_multiset_only, explicit_array_order_independent, factors_array_order_independent, compute_time_step_array_order_independent, hmin_antitone_in_particles: the values depend only on the multiset of particle values, not on the split into arrays or any order; and for the min-reduction of parallel runs par_is_min_or_fixed, par_no_rank_constrained_keeps_fixed) about a hand-written model that transcribes "
               "compute_time_step and friends and the state the integrator keeps between calls; "
               "the model is tied to the code on every run by bit-exact differential execution at Float against "
               "the scratch build of /repo, and the property's own predicate is evaluated on the implementation "
